@@ -52,6 +52,22 @@ def parseLeaf (j : Json) : Option (Op C) := do
     let n ← fNat? j "n"
     let ha := carr (← fFloats? j "hr") (← fFloats? j "hi")
     some (Op.circBatch k n (vecOf ha))
+  | "spec" =>
+    -- CircularConvolve as coded (transform domain), 1-D: F = fft matrix, G = ifft matrix, D = the object's own h_dft
+    let n ← fNat? j "n"
+    let Da := carr (← fFloats? j "Dr") (← fFloats? j "Di")
+    let wrap ← fStr? j "wrap"
+    let rootPow (k : Nat) (sign : Float) : C :=
+      let t := sign * 2.0 * 3.141592653589793 * (k % n).toFloat / n.toFloat
+      ⟨Float.cos t, Float.sin t⟩
+    let F : Nat → Nat → C := fun f jx => rootPow (jx * f) (-1.0)
+    let G : Nat → Nat → C := fun i f => let z := rootPow (i * f) 1.0; ⟨z.re / n.toFloat, z.im / n.toFloat⟩
+    let A := Op.spectral n F G (vecOf Da)
+    let re : C → C := fun z => ⟨z.re, 0.0⟩
+    some (match wrap with
+      | "rr" => Op.wrapRR re A
+      | "rc" => Op.wrapRC re A
+      | _ => A)
   | "scat" =>
     -- one scatter term of the 2-D projector: raw (possibly negative) indices, `fixIdx` as the code does
     let np ← fNat? j "np"
